@@ -62,20 +62,22 @@ def suffix_rule(ctx):
     fv = ctx.need("C06.X", GET)
     if fv is None:
         return
-    # each `if cond { return Some(Variant) }`: collect suffix literals of the cond -> variant
+    # every path of the function: the suffix literals of the last condition taken positively -> the variant returned
+    from ..core import sym_paths
     table = {}
-    for n in fv.nodes:
-        if n.get("k") != "if":
-            continue
-        rets = [r for r in walk(n["then"]) if r.get("k") == "ret"]
-        if not rets:
-            continue
-        s = some_of(fv.term(rets[0].get("e")))
+    for sp in sym_paths(fv, fv.body):
+        res = sp.ret if sp.ret is not None else sp.value
+        s = some_of(res) if res is not None else None
         if s is None or s[0] != "ctor":
             continue
         variant = s[1].split("::")[-1]
-        for _, lit in ends_with_lits(fv, n["cond"]):
-            table[lit] = variant
+        pos = [(t, node) for t, pol, node in sp.conds if pol and contains(t, lambda x: x[0] == "call" and x[1].endswith("::ends_with"))]
+        if not pos:
+            continue
+        t, node = pos[-1]
+        for x in subterms(t):
+            if x[0] == "call" and x[1].endswith("::ends_with") and len(x) == 4 and x[3][0] == "lit":
+                table[x[3][1]] = variant
     for suf, var in SUFFIX_SPEC.items():
         ctx.check("C06.X", "SeqFormat::get:%s" % suf, table.get(suf) == var, "%s -> %s" % (suf, var),
                   "suffix %s maps to %s, the property requires %s" % (suf, table.get(suf), var), fv.fn["sp"])
@@ -86,7 +88,12 @@ def suffix_rule(ctx):
     gz = [(n, l) for n, l in ends_with_lits(fv) if l not in SUFFIX_SPEC]
     trims = [n for n in fv.nodes if n.get("k") == "mcall" and cname(n).split("::")[-1] in
              ("trim_end_matches", "strip_suffix")]
-    ok = len(gz) == 1 and gz[0][1] == ".gz" and len(trims) == 1 and fv.term(trims[0]["args"][0]) == L(".gz")
+    # guarded strip (`if ends_with(".gz") { trim }`) or the unconditional, idempotent trim_end_matches(".gz")
+    ok = len(trims) == 1 and fv.term(trims[0]["args"][0]) == L(".gz") and (
+        (len(gz) == 1 and gz[0][1] == ".gz") or (not gz and cname(trims[0]).endswith("trim_end_matches")))
+    # the suffix tests must look at the stripped path
+    tested = [fv.term(n["recv"]) for n, l in ends_with_lits(fv) if l in SUFFIX_SPEC]
+    ok = ok and bool(tested)
     ctx.check("C06.X", "SeqFormat::get:gz_strip", ok, "optional .gz stripped before the suffix test",
               "SeqFormat::get does not strip exactly the literal \".gz\" (tests %s, strips %s)"
               % ([l for _, l in gz], [show(fv.term(t["args"][0])) for t in trims]), fv.fn["sp"])
